@@ -160,15 +160,15 @@ the snapshot semantics, for every keeper part, every list of EVM calls made from
 theorem runPre_good (ev : Eval N) (sev : SEval N) (roCtx roCall : Bool) (gas req : Nat) (sh : RunShape) (out : N → N)
     (inner : List (Nat × List (Prog N))) (act : ActionX N) (s : St N) (hsh : sh.clean = true)
     (hev : EvGood ev sev inner) :
-    Good s (runPre ev roCtx roCall gas req sh out inner act s) (specPre sev roCtx roCall gas req inner act s.toView) := by
-  have hb : sh.outerBefore = false ∧ sh.outerAfter = false ∧ sh.recovers = false ∧ sh.evmAfterWrite = false := by
+    Good s (runPre ev roCtx roCall gas req sh out inner act s) (specPre sev roCtx roCall gas req sh out inner act s.toView) := by
+  have hb : sh.outerBefore = false ∧ sh.recovers = false ∧ sh.evmAfterWrite = false := by
     simp only [RunShape.clean, Bool.and_eq_true, Bool.not_eq_true'] at hsh
-    exact ⟨hsh.1.1.1, hsh.1.1.2, hsh.1.2, hsh.2⟩
-  obtain ⟨h1, h2, h3, h4⟩ := hb
+    exact ⟨hsh.1.1, hsh.1.2, hsh.2⟩
+  obtain ⟨h1, h3, h4⟩ := hb
   unfold runPre specPre
   by_cases hg : gas < req
   · simp only [hg, ↓reduceIte]; exact good_fail s _
-  · simp only [hg, ↓reduceIte, h1, h2, h3, Bool.false_eq_true, runClosure, h4]
+  · simp only [hg, ↓reduceIte, h1, h3, Bool.false_eq_true, runClosure, h4]
     have hi := runInner_good ev sev roCtx inner s hev
     obtain ⟨hio, hiext, hiv⟩ := hi
     generalize hri : runInner ev roCtx inner s = ri at hio hiext hiv
@@ -191,9 +191,17 @@ theorem runPre_good (ev : Eval N) (sev : SEval N) (roCtx roCall : Bool) (gas req
       cases ra with
       | ok =>
         simp only
-        refine ⟨rfl, rfl, fun _ => ?_, fun _ => ?_⟩
-        · exact ext_journal_snapshot hextL na
-        · simp only [addLogs_view, hv1]
+        cases hoa : sh.outerAfter with
+        | false =>
+          simp only [Bool.false_eq_true, ↓reduceIte]
+          refine ⟨rfl, rfl, fun _ => ?_, fun _ => ?_⟩
+          · exact ext_journal_snapshot hextL na
+          · simp only [addLogs_view, hv1]
+        | true =>
+          simp only [↓reduceIte, St.poke]
+          refine ⟨rfl, rfl, fun _ => ?_, fun _ => ?_⟩
+          · exact ext_journal_snapshot hextL (out na)
+          · simp only [addLogs_view, hv1]
       | err =>
         simp only
         refine ⟨rfl, rfl, fun _ => ?_, fun h => by cases h⟩
@@ -305,5 +313,126 @@ theorem exec_good : ∀ (fuel : Nat) (ro : Bool) (gas : Nat) (p : List (Prog N))
           exact good_of_ext hext this
         · rw [ha, hb2]
           exact hgood
+
+/-! ## without panics there is no abort -/
+
+theorem runInner_ne_panic (ev : Eval N) (ro : Bool) :
+    ∀ (inner : List (Nat × List (Prog N))) (s : St N),
+      (∀ x ∈ inner, ∀ ro' (s' : St N), (ev ro' x.1 x.2 s').1 ≠ .abort) → (runInner ev ro inner s).1 ≠ .panic := by
+  intro inner
+  induction inner with
+  | nil => intro s _; simp [runInner]
+  | cons x rest ih =>
+    intro s hev
+    obtain ⟨g, body⟩ := x
+    have hx := hev (g, body) (List.mem_cons_self ..) ro s
+    simp only at hx
+    simp only [runInner]
+    by_cases hok : (ev ro g body s).1 = .ok
+    · simp only [hok, ↓reduceIte]
+      exact ih _ (fun y hy => hev y (List.mem_cons_of_mem _ hy))
+    · simp [hok, hx]
+
+theorem runPre_ne_abort (ev : Eval N) (roCtx roCall : Bool) (gas req : Nat) (sh : RunShape) (out : N → N)
+    (inner : List (Nat × List (Prog N))) (act : ActionX N) (s : St N)
+    (hact : ∀ ro g n, (act ro g n).1 ≠ .panic)
+    (hev : ∀ x ∈ inner, ∀ ro' (s' : St N), (ev ro' x.1 x.2 s').1 ≠ .abort) :
+    (runPre ev roCtx roCall gas req sh out inner act s).1 ≠ .abort := by
+  unfold runPre
+  by_cases hg : gas < req
+  · simp [hg]
+  · simp only [hg, ↓reduceIte]
+    have hcl : ∀ s0, (runClosure ev roCtx roCall (gas - req) sh inner act s0).1 ≠ .panic := by
+      intro s0
+      unfold runClosure
+      cases sh.evmAfterWrite with
+      | true =>
+        simp only [↓reduceIte]
+        generalize hk : s0.keeper roCall (gas - req) act = k
+        obtain ⟨rk, sk⟩ := k
+        have : rk = (act roCall (gas - req) s0.native).1 := by
+          have := congrArg Prod.fst hk; simpa [St.keeper] using this.symm
+        cases rk with
+        | ok => exact runInner_ne_panic ev roCtx inner sk hev
+        | err => simp
+        | panic => exact absurd this.symm (hact _ _ _)
+      | false =>
+        simp only [Bool.false_eq_true, ↓reduceIte]
+        generalize hi : runInner ev roCtx inner s0 = i
+        obtain ⟨ri, si⟩ := i
+        have hri : ri ≠ .panic := by
+          have := runInner_ne_panic ev roCtx inner s0 hev; rw [hi] at this; exact this
+        cases ri with
+        | ok => simp only [St.keeper]; exact hact _ _ _
+        | err => simp
+        | panic => exact absurd rfl hri
+    generalize hc : runClosure ev roCtx roCall (gas - req) sh inner act (if sh.outerBefore = true then s.poke out else s) = c
+    obtain ⟨rc, sc⟩ := c
+    have := hcl (if sh.outerBefore = true then s.poke out else s)
+    rw [hc] at this
+    cases rc with
+    | ok => simp
+    | err => simp
+    | panic => exact absurd rfl this
+
+theorem resolve_ne_abort (h : CallHdr N) (snap keep : Nat) (r : Outcome × St N × Nat) (hr : r.1 ≠ .abort) :
+    ∀ a, resolve h snap keep r = .inr a → a.1 ≠ .abort := by
+  intro a
+  unfold resolve
+  simp only [hr, ↓reduceIte]
+  by_cases hok : r.1 = .ok
+  · simp only [hok, ↓reduceIte]
+    by_cases hp : keep + r.2.2 < h.pOk <;> simp only [hp, ↓reduceIte] <;> intro ha
+    · cases ha; simp
+    · cases ha
+  · simp only [hok, ↓reduceIte]
+    by_cases hp : keep + (if r.1 = .revert then r.2.2 else 0) < h.pFail
+    · simp only [hp, ↓reduceIte]; intro ha; cases ha; simp
+    · simp only [hp, ↓reduceIte]
+      by_cases hs : h.swallow = true <;> simp only [hs, ↓reduceIte, Bool.false_eq_true] <;> intro ha
+      · cases ha
+      · cases ha; simp
+
+/-- a program none of whose keeper parts panics never aborts -/
+theorem exec_ne_abort : ∀ (fuel : Nat) (ro : Bool) (gas : Nat) (p : List (Prog N)) (s : St N), NoPanic p →
+    (exec fuel ro gas p s).1 ≠ .abort := by
+  intro fuel
+  induction fuel with
+  | zero => intro ro gas p s _; simp [exec]
+  | succ fuel ih =>
+    intro ro gas p s hnp
+    cases hnp with
+    | nil => simp [exec]
+    | @sstore c k v rest hrest =>
+      simp only [exec]
+      by_cases hc : gas < c ∨ ro = true
+      · simp [hc]
+      · simp only [hc, ↓reduceIte]; exact ih _ _ _ _ hrest
+    | @revert c rest => simp only [exec]; by_cases hc : gas < c <;> simp [hc]
+    | @stop c rest => simp only [exec]; by_cases hc : gas < c <;> simp [hc]
+    | @invalid rest => simp [exec]
+    | @call h body rest hbody hrest =>
+      simp only [exec]
+      by_cases hc : gas < h.callc ∨ (ro = true ∧ h.xfer.isSome = true)
+      · simp [hc]
+      · simp only [hc, ↓reduceIte]
+        have hb := ih (ro || h.kind == .staticcall) (fwdGas h gas + h.stip) body (s.enter h) hbody
+        have hres := resolve_ne_abort h s.journal.length (keepGas h gas) _ hb
+        cases hr : resolve h s.journal.length (keepGas h gas)
+            (exec fuel (ro || h.kind == .staticcall) (fwdGas h gas + h.stip) body (s.enter h)) with
+        | inl x => exact ih _ _ _ _ hrest
+        | inr a => exact hres a hr
+    | @pre h req sh out inner act rest hact hinner hrest =>
+      simp only [exec]
+      by_cases hc : gas < h.callc ∨ (ro = true ∧ h.xfer.isSome = true)
+      · simp [hc]
+      · simp only [hc, ↓reduceIte]
+        have hb := runPre_ne_abort (exec fuel) ro (h.kind != .call) (fwdGas h gas + h.stip) req sh out inner act (s.enter h)
+          hact (fun x hx ro' s' => ih ro' x.1 x.2 s' (hinner x hx))
+        have hres := resolve_ne_abort h s.journal.length (keepGas h gas) _ hb
+        cases hr : resolve h s.journal.length (keepGas h gas)
+            (runPre (exec fuel) ro (h.kind != .call) (fwdGas h gas + h.stip) req sh out inner act (s.enter h)) with
+        | inl x => exact ih _ _ _ _ hrest
+        | inr a => exact hres a hr
 
 end FxVerif.Proofs.C09
